@@ -56,6 +56,8 @@ void generate(sim::Rng &r, uint64_t seed, const std::string &tier, sim::Plan &p)
     if (r.chance(250)) { op.kind = "applock"; op.a = {prod, len, r.range(0, 2), r.range(0, 3)}; }   // header and body as two lockless appends
     else { op.kind = "app"; op.a = {prod, len, r.range(0, 2), r.range(0, 3)}; }                    // [prod, len, yields_after, sleep_after_ms]
     p.ops.push_back(op);
+    // session boundary: producers join, cleanup(), everything delivered, initialize() again on the same object
+    if (i + 1 < total && r.chance(40)) { sim::Op cut; cut.kind = "cut"; cut.a = {-1, 0, 0, 0}; p.ops.push_back(cut); }
   }
   sim::draw_sched(seed, p);
 }
@@ -80,10 +82,10 @@ struct Shared {
   size_t blocks = 0;
 };
 
-void producer_main(Shared *sh, const sim::Plan *plan, long prod) {
-  long seq = 0;
-  for (const sim::Op &op : plan->ops) {
-    if (op.arg(0) != prod) continue;
+void producer_main(Shared *sh, const sim::Plan *plan, long prod, size_t begin, size_t end, long seq) {
+  for (size_t oi = begin; oi < end; ++oi) {
+    const sim::Op &op = plan->ops[oi];
+    if (op.kind == "cut" || op.arg(0) != prod) continue;
     long len = std::max(0L, std::min(20000L, op.arg(1)));
     std::string f = make_frame(prod, seq, len);
     sim::hist(H_APP_INV, prod, seq, len);
@@ -127,29 +129,52 @@ void execute(const sim::Plan &plan) {
   cfg.buff_max_num = (size_t)std::max((long)cfg.buff_min_num, plan.get("buff_max", 2));
   cfg.interval = (size_t)std::max(1L, plan.get("interval", 5));
   long cb_sleep = plan.get("cb_sleep_ms"), cb_yields = plan.get("cb_yields");
-  pipe.setCallback([cb_sleep, cb_yields](const void *data, size_t size) {
-    sim::hist(H_CB_ENTER, (long)size);
-    if (sim::cell_add(C_IN_CB, 1) != 1) sim::violation("C10/sink-callbacks-overlap", "the sink callback was entered while a previous invocation had not returned");
-    for (long k = 0; k < cb_yields; ++k) sim::yield();
-    if (cb_sleep > 0) sim::sleep_ns(cb_sleep * 1000000);
-    sh.out.append(static_cast<const char *>(data), size);
-    ++sh.blocks;
-    sim::cell_add(C_IN_CB, -1);
-    sim::hist(H_CB_EXIT, (long)size);
-  });
-  if (!pipe.initialize(cfg)) { sim::violation("C10/initialize-failed", "initialize() rejected a valid configuration"); return; }
-
   long nprod = std::max(1L, std::min(4L, plan.get("nprod", 1)));
-  sim::cell_set(C_PRODUCERS_LEFT, nprod);
-  std::vector<std::thread> th;
-  for (long p = 0; p < nprod; ++p) th.emplace_back(producer_main, &sh, &plan, p);
-  for (auto &t : th) t.join();
-
-  sim::hist(H_CLEANUP_INV);
-  sim::cell_set(C_IN_CLEANUP, 1);
-  pipe.cleanup();
-  sim::cell_set(C_IN_CLEANUP, 0);
-  sim::hist(H_CLEANUP_RET);
+  std::vector<long> seq0((size_t)nprod, 0);
+  size_t begin = 0;
+  int session = 0;
+  while (begin <= plan.ops.size()) {
+    size_t end = begin;
+    while (end < plan.ops.size() && plan.ops[end].kind != "cut") ++end;
+    ++session;
+    // cleanup() drops the callback: it is set before every initialize()
+    pipe.setCallback([cb_sleep, cb_yields](const void *data, size_t size) {
+      sim::hist(H_CB_ENTER, (long)size);
+      if (sim::cell_add(C_IN_CB, 1) != 1) sim::violation("C10/sink-callbacks-overlap", "the sink callback was entered while a previous invocation had not returned");
+      for (long k = 0; k < cb_yields; ++k) sim::yield();
+      if (cb_sleep > 0) sim::sleep_ns(cb_sleep * 1000000);
+      sh.out.append(static_cast<const char *>(data), size);
+      ++sh.blocks;
+      sim::cell_add(C_IN_CB, -1);
+      sim::hist(H_CB_EXIT, (long)size);
+    });
+    if (!pipe.initialize(cfg)) { sim::violation("C10/initialize-failed", sim::fmt("initialize() rejected a valid configuration (session %d)", session)); return; }
+    sim::cell_set(C_PRODUCERS_LEFT, nprod);
+    std::vector<std::thread> th;
+    for (long p = 0; p < nprod; ++p) th.emplace_back(producer_main, &sh, &plan, p, begin, end, seq0[(size_t)p]);
+    for (auto &t : th) t.join();
+    for (size_t oi = begin; oi < end; ++oi) { long pr = plan.ops[oi].arg(0); if (pr >= 0 && pr < nprod) ++seq0[(size_t)pr]; }
+    sim::hist(H_CLEANUP_INV);
+    sim::cell_set(C_IN_CLEANUP, 1);
+    pipe.cleanup();
+    sim::cell_set(C_IN_CLEANUP, 0);
+    sim::hist(H_CLEANUP_RET, session);
+    // everything appended so far has been delivered: frames per producer in the output so far
+    {
+      std::vector<long> seen((size_t)nprod, 0);
+      size_t pos = 0; const std::string &o = sh.out;
+      while (o.size() - pos >= 6 && (unsigned char)o[pos] == 0xA5) {
+        long prod = (unsigned char)o[pos + 1]; long len = (unsigned char)o[pos + 4] | ((unsigned char)o[pos + 5] << 8);
+        if (prod >= nprod || o.size() - pos - 6 < (size_t)len) break;
+        ++seen[(size_t)prod]; pos += 6 + (size_t)len;
+      }
+      for (long p = 0; p < nprod && pos == o.size(); ++p)
+        if (seen[(size_t)p] != seq0[(size_t)p]) { sim::violation("C10/append-not-delivered-by-cleanup", sim::fmt("session %d: producer %ld had appended %ld blocks when cleanup() began, only %ld had been delivered when it returned", session, p, seq0[(size_t)p], seen[(size_t)p])); break; }
+    }
+    if (session > 1) sim::probe("reinitialised_sessions");
+    if (end >= plan.ops.size() || sim::violation_count()) break;
+    begin = end + 1;
+  }
   sim::finish();
 
   // ---------------------------------------------------------------- oracle
@@ -157,7 +182,7 @@ void execute(const sim::Plan &plan) {
   std::vector<std::vector<long>> lens((size_t)nprod);
   for (const sim::Op &op : plan.ops) {
     long pr = op.arg(0);
-    if (pr < 0 || pr >= nprod) continue;
+    if (op.kind == "cut" || pr < 0 || pr >= nprod) continue;
     lens[(size_t)pr].push_back(std::max(0L, std::min(20000L, op.arg(1))));
   }
   const std::string &o = sh.out;
@@ -193,10 +218,11 @@ void execute(const sim::Plan &plan) {
   }
   // callbacks after cleanup returned / overlap (from the history)
   int depth = 0;
-  uint64_t cleanup_ret = 0;
+  bool cleaned = false;        // between a cleanup() return and the next initialize() (= the next append) no callback may run
   for (const sim::HEvent &e : sim::history()) {
-    if (e.kind == H_CLEANUP_RET) cleanup_ret = e.seq;
-    if (e.kind == H_CB_ENTER) { if (++depth > 1) sim::violation("C10/sink-callbacks-overlap", "nested sink callback in the history"); if (cleanup_ret) sim::violation("C10/callback-after-cleanup", "sink callback after cleanup() returned"); }
+    if (e.kind == H_CLEANUP_RET) cleaned = true;
+    if (e.kind == H_APP_INV) cleaned = false;
+    if (e.kind == H_CB_ENTER) { if (++depth > 1) sim::violation("C10/sink-callbacks-overlap", "nested sink callback in the history"); if (cleaned) sim::violation("C10/callback-after-cleanup", "sink callback after cleanup() returned"); }
     if (e.kind == H_CB_EXIT) --depth;
   }
   if (sh.blocks > 0) sim::probe("blocks", (long)sh.blocks);
